@@ -176,6 +176,23 @@ func main() {
 			if l := planar.Length(orb.LineString(closed)); !relClose(l, wantLen, 0) {
 				c.Failf("length", "Length(LineString) = %v, want %v | %s", l, wantLen, desc())
 			}
+			// the same vertices without the closing point: the stored segments are one fewer, and the length is their
+			// sum whether the list is called a ring, a line, or the outer ring / hole of a polygon
+			{
+				openLen := 0.0
+				for i := 0; i+1 < n; i++ {
+					p, q := ir[i], ir[i+1]
+					openLen += math.Sqrt(float64((p[0]-q[0])*(p[0]-q[0]) + (p[1]-q[1])*(p[1]-q[1])))
+				}
+				for what, g := range map[string]orb.Geometry{"Ring": ring, "LineString": orb.LineString(ring), "Polygon": orb.Polygon{ring}, "MultiPolygon": orb.MultiPolygon{{ring}}, "Collection": orb.Collection{ring}} {
+					if l := planar.Length(g); !relClose(l, openLen, 0) {
+						c.Failf("length", "Length(%s of the unclosed vertex list) = %v, sum of its stored segments %v | %s", what, l, openLen, desc())
+					}
+				}
+				if l := planar.Length(orb.Polygon{closed, ring}); !relClose(l, wantLen+openLen, 0) {
+					c.Failf("length", "Length(polygon with the unclosed list as its hole) = %v, want %v | %s", l, wantLen+openLen, desc())
+				}
+			}
 			// distance from every lattice query point to the closed ring
 			ls := orb.LineString(closed)
 			for qx := int64(-1); qx <= 7; qx++ {
